@@ -942,12 +942,9 @@ def unbroadcast_f(target, f):
 def unbroadcast_einsum(x, target_meta, subscript):
     if Ellipsis not in subscript:
         return unbroadcast(x, target_meta)
-    elif subscript[0] == Ellipsis:
-        return unbroadcast(x, target_meta, 0)
-    elif subscript[-1] == Ellipsis:
-        return unbroadcast(x, target_meta, -1)
-    else:
-        return unbroadcast(x, target_meta, subscript.index(Ellipsis))
+    # broadcasting pads the ellipsis dimensions on the left, so the axes the operand
+    # does not have start where its ellipsis does (also for a trailing ellipsis)
+    return unbroadcast(x, target_meta, subscript.index(Ellipsis))
 
 
 def balanced_eq(x, z, y):
